@@ -461,12 +461,15 @@ func completeBeforeZero(c *Check, r *Repo, compile *ssa.Function, scope []*ssa.F
 	var stages []stage
 	// Compile: printer Fprint whose writer is the `out` parameter
 	stages = append(stages, stage{compile, func(call ssa.CallInstruction) bool {
-		if calleeName(call) != "(*go/printer.Config).Fprint" {
-			return false
-		}
 		args := call.Common().Args
-		return len(args) >= 2 && isParam(args[1], "out", compile)
-	}, "(*printer.Config).Fprint(out, …)"})
+		switch calleeName(call) {
+		case "(*go/printer.Config).Fprint":
+			return len(args) >= 2 && isParam(args[1], "out", compile)
+		case "go/format.Node":
+			return len(args) >= 1 && isParam(args[0], "out", compile)
+		}
+		return false
+	}, "(*printer.Config).Fprint(out, …) or format.Node(out, …)"})
 	for _, f := range scope {
 		f := f
 		if f.Pkg == nil || f.Pkg.Pkg.Name() != "main" {
